@@ -31,7 +31,7 @@ class FakeFuture:
         return None
 
 
-def run_dag(name, dag, workers):
+def run_dag(name, dag, workers, listed=None):
     from loki.jit_build import Lib, Obj, Builder
     import loki.jit_build.lib as libmod
     Obj.clear_cache()
@@ -41,7 +41,8 @@ def run_dag(name, dag, workers):
         for mod, deps in dag.items():
             uses = ''.join('  use %s_mod\n' % d for d in deps)
             (tmp / ('%s_mod.f90' % mod)).write_text('module %s_mod\n%s  implicit none\nend module %s_mod\n' % (mod, uses, mod))
-        objs = [Obj(source_path=tmp / ('%s_mod.f90' % m)) for m in dag]
+        # `listed`: the library lists only these objects; the others are resolved through the builder's source directory
+        objs = [Obj(source_path=tmp / ('%s_mod.f90' % m)) for m in (listed or dag)]
         futures = {}
 
         class FakeQueue:
@@ -117,6 +118,10 @@ def corpus():
             problems, events = run_dag(name, dag, workers)
             out.append({'name': 'native/%s/workers=%d' % (name, workers), 'violation': bool(problems),
                         'problems': problems[:5], 'events': events})
+    for name, listed in (('chain3', ['a']), ('diamond', ['top']), ('two_roots', ['q'])):
+        problems, events = run_dag(name, DAGS[name], 3, listed=listed)
+        out.append({'name': 'native/%s/only-%s-listed/workers=3' % (name, '+'.join(listed)), 'violation': bool(problems),
+                    'problems': problems[:5], 'events': events})
     return out
 
 
